@@ -1,7 +1,7 @@
 """C04 - Hello properties faithfully encode the interface's attributes."""
 from props.base import *
 from props.blk import *
-XORACLE = True   # spec/SpecTx.v predicates, extracted, run on the implementation's trace
+XORACLE = 'attrs'   # spec/SpecTx.v predicates, extracted, run on the implementation's trace
 COQ_TARGETS = ['props/Properties_C04.vo']
 RULE = ('attribute tuples: MAC random in 2^48, flags in 2^16 (0, 0x2000, 0x800, 0xFFFF, single bits, random), ifType / IPv4 / speed in 2^32 dense on byte-boundary values (0, 1, 0xFF, 0x100, '
         '0xFF00, 0x01020304, 0x80000000, 0xFFFFFFFF, random), IPv6 random, machine names and SSIDs of every length 0..40, RSSI -128, -127, -70, -1, 0, 1, 127, rate in 2^16, wireless on/off, '
